@@ -43,6 +43,9 @@ package base
 //@   modifies ghost.step_failed
 //@   ensures ghost.step_failed == (old(ghost.step_failed) || result1 != nil)
 //@   ensures result1 == nil ==> result0 != nil
+//@ ext seata.apache.org/seata-go/pkg/datasource/sql/undo/factor.GetUndoExecutor
+//@   modifies ghost.step_failed
+//@   ensures ghost.step_failed == (old(ghost.step_failed) || result1 != nil) && (result1 == nil ==> result0 != nil)
 //@ iface (undo.UndoExecutor).ExecuteOn
 //@   modifies ghost.step_failed, ghost.executors_run, ghost.execs
 //@   ensures ghost.executors_run == old(ghost.executors_run) + 1 && ghost.step_failed == (old(ghost.step_failed) || result != nil) && ghost.execs >= old(ghost.execs)
@@ -76,6 +79,12 @@ package base
 //@   ensures truthful: result == nil ==> ghost.utx == 2 || (ghost.utx == 3 && ghost.execs == 0)
 //@   ensures failure-surfaces: ghost.step_failed ==> result != nil
 //@   ensures conn-released: ghost.conns_out == old(ghost.conns_out) && ghost.stmts_open == old(ghost.stmts_open) && ghost.rows_open == old(ghost.rows_open)
-//@   loop 1 invariant tx-open: ghost.utx == 1 && ghost.conns_out == old(ghost.conns_out) + 1 && conn != nil && tx != nil
-//@   loop 2 invariant tx-open: ghost.utx == 1 && ghost.conns_out == old(ghost.conns_out) + 1 && conn != nil && tx != nil
-//@   loop 3 invariant tx-open: ghost.utx == 1 && ghost.conns_out == old(ghost.conns_out) + 1 && conn != nil && tx != nil
+//@   at return: assert marker-when-no-row: result == nil && !localor("exists", true) ==> called("insertUndoLogWithGlobalFinished#1")
+//@   ensures not-both: !(called("DeleteUndoLog#1") && called("insertUndoLogWithGlobalFinished#1"))
+//@   at call DeleteUndoLog#1: assert C01/deletes-own-log: arg_xid == xid && arg_branchID == branchID && arg_conn == conn && ghost.utx == 1 && exists
+//@   at call insertUndoLogWithGlobalFinished#1: assert marker-for-this-branch: arg_xid == xid && arg_branchID == branchID % pow2(64) && arg_conn == conn && ghost.utx == 1 && !exists
+//@   at call ExecuteOn#1: assert same-connection: arg_conn == conn && ghost.utx == 1
+//@   at call GetUndoExecutor#1: assert C01/reverse-order: called("Reverse#1") && sqlUndoLogs == callres("deserializeBranchUndoLog#1", 0).Logs
+//@   loop 1 invariant tx-open: ghost.utx == 1 && ghost.conns_out == old(ghost.conns_out) + 1 && conn != nil && tx != nil && !ghost.step_failed
+//@   loop 2 invariant tx-open: ghost.utx == 1 && ghost.conns_out == old(ghost.conns_out) + 1 && conn != nil && tx != nil && !ghost.step_failed
+//@   loop 3 invariant tx-open: ghost.utx == 1 && ghost.conns_out == old(ghost.conns_out) + 1 && conn != nil && tx != nil && !ghost.step_failed
